@@ -9,6 +9,7 @@ import EV.Driver.C15
 import EV.Driver.C03
 import EV.Driver.C13
 import EV.Driver.C20
+import EV.Driver.C20Derive
 import EV.Driver.C08
 import EV.Driver.C14
 import EV.Driver.C09
@@ -22,7 +23,7 @@ import EV.Driver.TxAcc
 import EV.Driver.C06Ops
 open EV.Driver
 
-def allOps : List (String × Handler) := C01.ops ++ C02.ops ++ C12.ops ++ C18.ops ++ C19.ops ++ C11.ops ++ C16.ops ++ C15.ops ++ C03.ops ++ C13.ops ++ C20.ops ++ C08.ops ++ C14.ops ++ C09.ops ++ C10.ops ++ C04.ops ++ C05.ops ++ C17.ops ++ C06.ops ++ C07.ops ++ TxAcc.ops ++ C06Ops.ops
+def allOps : List (String × Handler) := C01.ops ++ C02.ops ++ C12.ops ++ C18.ops ++ C19.ops ++ C11.ops ++ C16.ops ++ C15.ops ++ C03.ops ++ C13.ops ++ C20.ops ++ C08.ops ++ C14.ops ++ C09.ops ++ C10.ops ++ C04.ops ++ C05.ops ++ C17.ops ++ C06.ops ++ C07.ops ++ TxAcc.ops ++ C06Ops.ops ++ C20Derive.ops
 
 def handle (cfg : Cfg) (line : String) : Cfg × String :=
   match line.trimAscii.toString.splitOn " " with
